@@ -388,3 +388,93 @@ Proof.
   - intros c x Hin Hx. apply HD. rewrite Forall_forall in Hc. destruct (Hc c Hin) as [H1 H2].
     exact (contained_in_domain dmax c x H1 H2 Hx).
 Qed.
+
+(** ---------- hole filling: adding any of the parts of the complement only adds whole components ---------- *)
+Section Fill.
+  Variable nb : N -> list N.
+
+  Lemma pairwise_pick (R : list N -> list N -> Prop) : forall l p p', Pairwise R l -> In p l -> In p' l -> p <> p' -> R p p'.
+  Proof.
+    induction l as [|a t IH]; intros p p' H Hp Hp' Hne; [destruct Hp|].
+    cbn [Pairwise] in H. destruct H as [H1 H2].
+    destruct Hp as [<-|Hp], Hp' as [<-|Hp'].
+    - congruence.
+    - apply (H1 p' Hp').
+    - apply (H1 p Hp).
+    - apply (IH p p' H2 Hp Hp' Hne).
+  Qed.
+
+  Theorem fill_from_split (M Cmp : list N) (parts sel : list (list N)) :
+    SplitOK nb Cmp parts ->
+    (forall p, In p sel -> In p parts) ->
+    (forall c n, In c Cmp -> In n (nb c) -> In n M \/ In n Cmp) ->
+    FillOK nb M (M ++ concat sel).
+  Proof.
+    intros [S1 S2 S3 S4 S5] Hsel Hclosed. split.
+    - intros c Hc. apply in_or_app. left. exact Hc.
+    - intros c n Hc HnM Hn. apply in_app_or in Hc. destruct Hc as [Hc|Hc]; [contradiction|].
+      apply in_concat in Hc. destruct Hc as [P [HP HcP]].
+      assert (HcC : In c Cmp) by (apply S2; exists P; split; [apply Hsel; exact HP|exact HcP]).
+      destruct (Hclosed c n HcC Hn) as [HnM'|HnC]; [apply in_or_app; left; exact HnM'|].
+      apply S2 in HnC. destruct HnC as [P' [HP' HnP']].
+      apply in_or_app. right. apply in_concat. exists P. split; [exact HP|].
+      destruct (list_eq_dec N.eq_dec P P') as [E|E]; [rewrite E; exact HnP'|].
+      exfalso. apply (pairwise_pick (NonAdjacent nb) parts P P' S4 (Hsel P HP) HP' E c n HcP Hn HnP').
+  Qed.
+End Fill.
+
+Lemma insert_desc_in dmax x l y : In y (insert_desc dmax x l) <-> y = x \/ In y l.
+Proof.
+  induction l as [|z t IH]; cbn [insert_desc In]; [split; intros [H|H]; auto|].
+  destruct (_ <=? _); cbn [In]; [split; intros [H|H]; auto|]. rewrite IH. split; intros H; tauto.
+Qed.
+Lemma sort_desc_in dmax l y : In y (sort_desc dmax l) <-> In y l.
+Proof.
+  induction l as [|x t IH]; [reflexivity|]. cbn [sort_desc fold_right]. fold (sort_desc dmax t).
+  rewrite insert_desc_in, IH. cbn [In]. split; intros [H|H]; auto.
+Qed.
+Lemma skipn_in {A} (n : nat) : forall (l : list A) y, In y (skipn n l) -> In y l.
+Proof. induction n as [|n IH]; intros l y H; [exact H|]. destruct l as [|a t]; [destruct H|]. right. apply IH. exact H. Qed.
+
+Lemma symb_dom nb cells : symb nb cells = true -> forall x y, In y cells -> In x (nb y) -> In x cells.
+Proof.
+  unfold symb. rewrite forallb_forall. intros H x y Hy Hx. specialize (H y Hy). rewrite forallb_forall in H.
+  specialize (H x Hx). apply andb_prop in H. destruct H as [_ H]. apply memb_spec in H. exact H.
+Qed.
+
+(** fill_holes / fill_holes_smaller_than as modelled: the result is a superset of the MOC that only adds whole
+    connected components of the complement (FillOK), for every MOC of depth <= 3, every index width, every
+    number of excepted components and every threshold *)
+Theorem fill_meets_definition_shallow : forall (d : nat) maxd (M : list N) cmp_cells,
+  (d <= 3)%nat -> maxd <= 64 -> N.of_nat d <= maxd ->
+  let nb := nb8 d in
+  let dmax := N.of_nat d in
+  Forall (fun c => fst c <= dmax /\ snd c < 12 * 4 ^ fst c) cmp_cells ->
+  StronglySorted N.lt (map (zun maxd) cmp_cells) ->
+  ForallOrdPairs (disj maxd) cmp_cells ->
+  (forall x, x < 12 * 4 ^ dmax -> In x M \/ In x (flatc dmax cmp_cells)) ->
+  (forall except, exists sel, ff_fill maxd dmax (ext_of nb dmax) cmp_cells except = Some sel /\
+                              FillOK nb M (M ++ concat (map (flatc dmax) sel))) /\
+  (forall num den, exists sel, ff_fill_smaller maxd dmax (ext_of nb dmax) cmp_cells num den = Some sel /\
+                               FillOK nb M (M ++ concat (map (flatc dmax) sel))).
+Proof.
+  intros d maxd M cmp_cells Hd Hm Hdm nb dmax Hc Hs Hp Hcover.
+  destruct (split_meets_definition_shallow d true maxd cmp_cells Hd Hm Hdm Hc Hs Hp) as [comps [C1 C2]].
+  fold nb dmax in C1, C2.
+  assert (Hclosed : forall c n, In c (flatc dmax cmp_cells) -> In n (nb c) -> In n M \/ In n (flatc dmax cmp_cells)).
+  { intros c n Hcin Hn. apply Hcover.
+    assert (HD : forall x, In x (all_cells d) <-> x < 12 * 4 ^ dmax).
+    { intros x. unfold all_cells, dmax. rewrite in_nseq, N2Nat.id. lia. }
+    apply HD. apply (symb_dom (nb8 d) (all_cells d) (nb8_symmetric_shallow d Hd) n c); [|exact Hn].
+    apply HD. unfold flatc in Hcin. apply in_flat_map in Hcin. destruct Hcin as [b [Hb1 Hb2]].
+    rewrite Forall_forall in Hc. destruct (Hc b Hb1) as [H1 H2].
+    apply (contained_in_domain dmax b c H1 H2). apply (in_subs maxd dmax Hm Hdm). exact Hb2. }
+  assert (G : forall sel, (forall p, In p sel -> In p comps) -> FillOK nb M (M ++ concat (map (flatc dmax) sel))).
+  { intros sel Hsel. apply (fill_from_split nb M (flatc dmax cmp_cells) (map (flatc dmax) comps) (map (flatc dmax) sel) C2); [|exact Hclosed].
+    intros p Hp'. apply in_map_iff in Hp'. destruct Hp' as [q [<- Hq]]. apply in_map. apply Hsel. exact Hq. }
+  split.
+  - intros except. unfold ff_fill. rewrite C1. eexists. split; [reflexivity|]. apply G.
+    intros p Hp'. apply skipn_in in Hp'. apply sort_desc_in in Hp'. exact Hp'.
+  - intros num den. unfold ff_fill_smaller. rewrite C1. eexists. split; [reflexivity|]. apply G.
+    intros p Hp'. apply filter_In in Hp'. tauto.
+Qed.
